@@ -479,3 +479,56 @@ pub fn model_detect_mode(d: &mut Driver, bytes: &[u8], s: &Sett, full: bool) -> 
         return ModelRun { outcome, rounds, oracle };
     }
 }
+
+/// The declaration scan of `any_specified_encoding`, written without the crate and without a regex engine
+/// (oracle side): ASCII bytes of the first `zone` bytes; leftmost match of
+/// `(encoding|charset|coding)[:= ]{1,10}["']?([a-zA-Z0-9\-_]+)["']?`, matches taken left to right without
+/// overlap; the first captured label that names a known encoding wins.
+pub fn independent_declared(bytes: &[u8], zone: usize) -> Option<String> {
+    let text: Vec<u8> = bytes[..zone.min(bytes.len())].iter().copied().filter(|b| *b < 0x80).collect();
+    let is_sep = |b: u8| b == b':' || b == b'=' || b == b' ';
+    let is_label = |b: u8| b.is_ascii_alphanumeric() || b == b'-' || b == b'_';
+    let mut i = 0usize;
+    while i < text.len() {
+        let mut matched_end: Option<(usize, String)> = None;
+        for kw in [&b"encoding"[..], &b"charset"[..], &b"coding"[..]] {
+            if text[i..].starts_with(kw) {
+                let mut j = i + kw.len();
+                let mut k = 0;
+                while j + k < text.len() && is_sep(text[j + k]) {
+                    k += 1;
+                }
+                if k == 0 || k > 10 {
+                    continue;
+                }
+                j += k;
+                if j < text.len() && (text[j] == b'"' || text[j] == b'\'') {
+                    j += 1;
+                }
+                let l0 = j;
+                while j < text.len() && is_label(text[j]) {
+                    j += 1;
+                }
+                if j == l0 {
+                    continue;
+                }
+                let label = String::from_utf8_lossy(&text[l0..j]).to_string();
+                if j < text.len() && (text[j] == b'"' || text[j] == b'\'') {
+                    j += 1;
+                }
+                matched_end = Some((j, label));
+                break;
+            }
+        }
+        match matched_end {
+            Some((end, label)) => {
+                if let Some(n) = charset_normalizer_rs::utils::iana_name(&label) {
+                    return Some(n.to_string());
+                }
+                i = end.max(i + 1);
+            }
+            None => i += 1,
+        }
+    }
+    None
+}
